@@ -152,7 +152,7 @@ for i in ids:
     })
 m = {
  'version': 1,
- 'setup_cmd': 'cd /verif/harness && CARGO_NET_OFFLINE=true CARGO_TARGET_DIR=/verif/target cargo build --offline --profile verif --no-default-features --features hooks,',
+ 'setup_cmd': 'cd /verif/harness && export CARGO_NET_OFFLINE=true && CARGO_TARGET_DIR=/verif/target cargo build --offline --profile verif --no-default-features --features hooks, && CARGO_TARGET_DIR=/verif/target cargo build --offline --profile verifrel --no-default-features --features hooks, && CARGO_TARGET_DIR=/verif/target/sso-lv10 cargo build --offline --profile verif --no-default-features --features hooks,sso-lv10',
  'hooks': {
    'guard': 'cargo feature `verif-hooks` of mqtt-protocol-core (off by default)',
    'enable': 'the harness crate /verif/harness depends on /repo by path with feature hooks -> mqtt-protocol-core/verif-hooks; ./check builds with it and falls back to a hook-less build if that fails',
